@@ -77,7 +77,24 @@ def spaces():
   for pk in ('cat', 'int', 'disc', 'bool'):
     for multi in (False, True):
       out['cond-%s-%s' % (pk, 'multi' if multi else 'single')] = cond(pk, multi)
+
+  # ---- the same child name under different parent values, with different domains and external types
+  # (descriptor keys 'name#k' stand for the k-th declaration of parameter 'name')
+  def same_name(root):
+    root.add_categorical_param('model', ['small', 'large', 'none'])
+    root.select('model', ['small']).add_discrete_param('width', [1, 2, 4])           # integers: auto-cast to int
+    root.select('model', ['large']).add_discrete_param('width', [0.5, 1.5, 2.5])     # floats
+    root.select('model', ['small']).add_bool_param('opt')
+    root.select('model', ['large']).add_categorical_param('opt', ['x', 'True'])       # a plain categorical, not a bool
+  out['cond-same-child-name'] = (same_name, {
+      'model': ('str', ['small', 'large', 'none'], None),
+      'width#0': ('int', [1, 2, 4], ('model', ['small'])), 'width#1': ('float', [0.5, 1.5, 2.5], ('model', ['large'])),
+      'opt#0': ('bool', ['True', 'False'], ('model', ['small'])), 'opt#1': ('str', ['x', 'True'], ('model', ['large']))})
   return out
+
+
+def real(n):
+  return n.split('#')[0]
 
 
 def active_assignments(desc):
@@ -105,6 +122,7 @@ def expected(desc, assign):
   groups = {}
   for n, v in assign.items():
     t = desc[n][0]
+    n = real(n)
     if t == 'bool':
       ev = (v == 'True')
     elif t == 'int':
@@ -198,6 +216,7 @@ def shard(task):
       n += 1
       nontriv += 1
       want = expected(desc, assign)
+      dassign, assign = assign, {real(k): v for k, v in assign.items()}
       tp = store(assign)
       for via in ('StudyConfig.trial_parameters', 'clients.Trial.parameters'):
         try:
@@ -211,8 +230,8 @@ def shard(task):
       # the same trial plus an unknown parameter / an inactive parameter must be an error
       bad = [dict(assign, unknown_param=1.0)]
       for pn, (t, vals, cond) in desc.items():
-        if pn not in assign:
-          bad.append(dict(assign, **{pn: vals[0]}))
+        if pn not in dassign and real(pn) not in assign:
+          bad.append(dict(assign, **{real(pn): vals[0]}))
       for ba in bad:
         n += 1
         nontriv += 1
